@@ -124,16 +124,42 @@ def run(ctx):
 
     # ---- C18.4 dtype construction and positional pairing --------------------------
     gd = ctx.fn(LP + ":get_dtype")
-    d0 = find_stmt("$$d = [($$n, array_dtype) for $$n in names]", gd.node)
-    aug_ = find_stmt("$$d += list(zip(config.livepoints.non_sampling_parameters, config.livepoints.non_sampling_dtype))", gd.node, {"d": d0[0][1]["d"]} if d0 else None)
-    rt = find_stmt("return dtype($$d)", gd.node, {"d": d0[0][1]["d"]} if d0 else None)
-    aug = [n for n, b in aug_]
-    ok = len(d0) == 1 and len(aug) == 1 and len(rt) == 1
+    from ..summ import summarise as _summ184
+    from ..q import conjuncts as _conj184
+
+    def _flag(pa_, name_="non_sampling_parameters"):
+        v_ = None
+        for t_, tr_ in pa_.guards:
+            for e_, x_ in _conj184(t_, tr_):
+                if canon(e_) == name_:
+                    v_ = x_
+        return v_
+
+    def _nolist(e_):
+        # list(zip(..)) / zip(..): the same elements when they are only appended to a list
+        return e_.args[0] if isinstance(e_, ast.Call) and isinstance(e_.func, ast.Name) and e_.func.id == "list" and len(e_.args) == 1 and isinstance(e_.args[0], ast.Call) else e_
+
+    BASE_D = "[(n, array_dtype) for n in names]"
+    ZIP_D = "zip(config.livepoints.non_sampling_parameters, config.livepoints.non_sampling_dtype)"
+    gpaths = [pa_ for pa_ in _summ184(gd.node) if pa_.end == "return"]
+    ok = len(gpaths) in (2, 4)
+    ok_iff = ok
+    for pa_ in gpaths:
+        r_ = pa_.ret
+        a_ = r_.args[0] if isinstance(r_, ast.Call) and canon(r_.func) == "dtype" and len(r_.args) == 1 else None
+        fl_ = _flag(pa_)
+        if a_ is None or fl_ is None:
+            ok = ok_iff = False
+            continue
+        if isinstance(a_, ast.BinOp) and isinstance(a_.op, ast.Add):
+            good = canon(a_.left, rename={}) is not None and match_expr("[($$n, $t) for $$n in names]", a_.left) is not None and canon(match_expr("[($$n, $t) for $$n in names]", a_.left)["t"]) in ("array_dtype", "config.livepoints.default_float_dtype") and canon(_nolist(a_.right)) == ZIP_D
+            ok = ok and good
+            ok_iff = ok_iff and fl_ is True
+        else:
+            ok = ok and match_expr("[($$n, $t) for $$n in names]", a_) is not None and canon(match_expr("[($$n, $t) for $$n in names]", a_)["t"]) in ("array_dtype", "config.livepoints.default_float_dtype")
+            ok_iff = ok_iff and fl_ is False
     ctx.ob("R-SIB", "C18.4", gd, "dtype = caller's names in caller's order, then (non-sampling name, dtype) pairs zipped from the two registry tables", ok, "")
-    ga = FA(gd)
-    if aug:
-        facts = [(canon(e), t) for e, t in guard_facts(ga, ga.cfg.id_of(aug[0]))]
-        ctx.ob("R-DOM", "C18.4", gd, "non-sampling fields are appended iff requested", ("non_sampling_parameters", True) in facts, f"{facts}")
+    ctx.ob("R-DOM", "C18.4", gd, "non-sampling fields are appended iff requested", ok_iff, "")
     es = ctx.fn(LP + ":empty_structured_array")
     ea = FA(es)
     # the fill may sit in the function itself or in a module-level helper it calls (one level)
@@ -150,25 +176,44 @@ def run(ctx):
     loops = [n for n in walk_no_nested(na.node) if isinstance(n, ast.For)]
     okn = len(loops) == 1 and match_stmt("for $$i, $$n in enumerate(names):\n    $$arr[$$n] = array[..., $$i]", loops[0]) is not None
     ctx.ob("R-SIB", "C18.4", na, "column i of a plain array goes to field names[i] (enumerate(names))", okn, "")
-    for q, want_params, want_names in (
-        (LP + ":parameters_to_live_point", "[(*parameters, *config.livepoints.non_sampling_defaults)]", "names"),
-        (LP + ":dict_to_live_points", "[(*tuple(d.values()), *config.livepoints.non_sampling_defaults)]", "d.keys()"),
-    ):
+    DEF_ = "config.livepoints.non_sampling_defaults"
+
+    def _array_calls(e_):
+        return [c_ for c_ in ast.walk(e_) if isinstance(c_, ast.Call) and canon(c_.func) == "array" and any(k_.arg == "dtype" for k_ in c_.keywords)] if e_ is not None else []
+
+    for q, P_, want_names in ((LP + ":parameters_to_live_point", ("parameters",), "names"), (LP + ":dict_to_live_points", ("tuple(d.values())", "d.values()"), "d.keys()")):
         f = ctx.fn(q)
-        calls = [c_ for c_ in walk_no_nested(f.node) if isinstance(c_, ast.Call) and call_name(c_) in ("np.array", "numpy.array")]
-        ok = False
-        detail = ""
-        for c_ in calls:
-            kw = {k.arg: k.value for k in c_.keywords}
-            dtc = kw.get("dtype")
-            if isinstance(dtc, ast.Call) and call_name(dtc) == "get_dtype" and src(dtc.args[0]) == want_names:
-                ok = True
+        ok, n_c, detail = True, 0, ""
+        for pa_ in [x_ for x_ in _summ184(f.node, max_paths=400) if x_.end == "return"]:
+            for c_ in _array_calls(pa_.ret):
+                dtc = next(k_.value for k_ in c_.keywords if k_.arg == "dtype")
+                if not (isinstance(dtc, ast.Call) and canon(dtc.func) == "get_dtype" and dtc.args):
+                    continue
+                rows = c_.args[0] if c_.args else None
+                if not (isinstance(rows, ast.List) and len(rows.elts) == 1):
+                    continue  # the many-points path (arrays of values): decided by the array conversion rules
+                n_c += 1
                 detail = src(c_)[:120]
-        ctx.ob("R-SIB", "C18.4", f, "single-point constructor builds its dtype with get_dtype(<caller's names>) and appends the non-sampling defaults after the parameters", ok and "*config.livepoints.non_sampling_defaults" in src(f.node), detail)
+                fl_ = next((k_.value for k_ in dtc.keywords if k_.arg == "non_sampling_parameters"), dtc.args[2] if len(dtc.args) > 2 else None)
+                fv_ = _flag(pa_, canon(fl_)) if fl_ is not None else None
+                row = canon(rows.elts[0])
+                want_t = {f"(*{x_}, *{DEF_})" for x_ in P_} | {f"tuple({x_}) + {DEF_}" for x_ in P_}
+                want_f = {f"tuple({x_})" for x_ in P_} | {f"tuple(tuple({x_}))" for x_ in P_}
+                ok = ok and canon(dtc.args[0]) == want_names and ((fv_ is True and row in want_t) or (fv_ is False and row in want_f))
+        ctx.ob("R-SIB", "C18.4", f, "single-point constructor builds its dtype with get_dtype(<caller's names>) and appends the non-sampling defaults after the parameters", ok and n_c >= 2, detail)
     df = ctx.fn(LP + ":dataframe_to_live_points")
-    ex = find_stmt("$$e = config.livepoints.non_sampling_defaults", df.node)
-    rw = find_expr("array([tuple($$r) + $$e for $$r in df.values], dtype=get_dtype(list(df.dtypes.index), non_sampling_parameters=non_sampling_parameters))", df.node, ex[0][1] if ex else None)
-    ctx.ob("R-SIB", "C18.4", df, "data-frame rows become tuple(row) + defaults with dtype get_dtype(list(df.dtypes.index))", len(ex) == 1 and len(rw) == 1, "")
+    okdf, n_df = True, 0
+    for pa_ in [x_ for x_ in _summ184(df.node) if x_.end == "return"]:
+        for c_ in _array_calls(pa_.ret):
+            n_df += 1
+            dtc = next(k_.value for k_ in c_.keywords if k_.arg == "dtype")
+            fl_ = next((k_.value for k_ in dtc.keywords if k_.arg == "non_sampling_parameters"), None) if isinstance(dtc, ast.Call) else None
+            fv_ = _flag(pa_, canon(fl_)) if fl_ is not None else None
+            r0 = c_.args[0] if c_.args else None
+            rows_t = r0 is not None and match_expr(f"[tuple($$r) + {DEF_} for $$r in df.values]", r0) is not None
+            rows_f = r0 is not None and any(match_expr(pt_, r0) is not None for pt_ in ("[tuple($$r) + tuple() for $$r in df.values]", "[tuple($$r) + () for $$r in df.values]", "[tuple($$r) for $$r in df.values]"))
+            okdf = okdf and isinstance(dtc, ast.Call) and canon(dtc.func) == "get_dtype" and dtc.args and canon(dtc.args[0]) == "list(df.columns)" and ((fv_ is True and rows_t) or (fv_ is False and rows_f))
+    ctx.ob("R-SIB", "C18.4", df, "data-frame rows become tuple(row) + defaults with dtype get_dtype(list(df.dtypes.index))", okdf and n_df >= 2, "")
     # live_points_to_dict hands back one *array* per name - of length 1 for a single point - so the way back must send
     # every sequence, of any length, down the array path; the tuple path is for scalars only.  Its guard must therefore
     # be "the values have no __len__", not "N == 1" (a tuple of length-1 arrays is not a valid row for np.array)
